@@ -272,6 +272,26 @@ def analyse_module(tree, relpath):
             scan(node, set(), node.name)
         elif isinstance(node, ast.ClassDef):
             _scan_class(node, node.name, scan)
+    # memoising decorators: the cached *object* is handed to every later caller with equal arguments; if it is a
+    # mutable container built in the call, one caller's in-place edit is served to the next
+    for fn in [n for n in ast.walk(tree) if isinstance(n, (ast.FunctionDef, ast.AsyncFunctionDef))]:
+        decs = [ast.unparse(d.func if isinstance(d, ast.Call) else d) for d in fn.decorator_list]
+        memo = [d for d in decs if d.split(".")[-1] in ("lru_cache", "cache", "cached", "memoize", "cached_property")]
+        if not memo:
+            continue
+        mutable_ctor = ("DataFrame", "concat", "array", "asarray", "zeros", "ones", "empty", "full", "linspace", "arange", "dict", "list", "set", "Series", "to_records", "copy")
+        local_mut = set()
+        for n in ast.walk(fn):
+            if isinstance(n, ast.Assign) and len(n.targets) == 1 and isinstance(n.targets[0], ast.Name):
+                v = n.value
+                if isinstance(v, (ast.Dict, ast.List, ast.Set, ast.ListComp, ast.DictComp)) or (isinstance(v, ast.Call) and ast.unparse(v.func).split(".")[-1] in mutable_ctor):
+                    local_mut.add(n.targets[0].id)
+        for r in [n for n in ast.walk(fn) if isinstance(n, ast.Return) and n.value is not None]:
+            v = r.value
+            mut = isinstance(v, (ast.Dict, ast.List, ast.Set, ast.ListComp, ast.DictComp)) or (isinstance(v, ast.Call) and ast.unparse(v.func).split(".")[-1] in mutable_ctor) or (isinstance(v, ast.Name) and v.id in local_mut)
+            if mut:
+                findings.append(MemoFinding(fn.name, fn.lineno, "@" + memo[0], ["<identity of the returned mutable object>"], "memoising decorator on a function that returns a mutable container built in the call (callers share one object)"))
+                break
     return findings, len(state) + len(class_state), nfuncs
 
 
